@@ -31,10 +31,11 @@ Theorem c02_gop_shape : forall (is_key : label -> Prop) max G c b,
 Proof. exact (gops_feed_shape label). Qed.
 Print Assumptions c02_gop_shape.
 
-(* the ring keeps representing the queue under every feed, for every ring size *)
-Theorem c02_ring_refines_queue : forall g G c b,
+(* the ring keeps representing the queue under every feed, for every ring
+   size; a sequence header with new content empties the queue (fix F-08ii) *)
+Theorem c02_ring_refines_queue : forall g G c b p,
   ring_inv label g G ->
-  ring_inv label (fst (gc_feed g c b)) (if Nat.ltb 1 (gc_size g) then gops_feed (gc_max g) G c b else G).
+  ring_inv label (fst (gc_feed g c b p)) (gops_after label g G c b p).
 Proof. exact (ring_inv_feed label). Qed.
 Print Assumptions c02_ring_refines_queue.
 
@@ -122,12 +123,16 @@ Lemma c02_header_while_waiting_refuted :
   mclass_of (amsg 175 0 2) = MAsh /\ out_of (cfg0 0) h 1 = Some [LT 0; LT 2; LT 3].
 Proof. vm_compute. split; reflexivity. Qed.
 
-(* F-08(ii): the cached GOP coded under the first header is replayed after the second one *)
-Lemma c02_stale_gop_refuted :
+(* F-08(ii), FIXED (lal): GOPs cached under the first sequence header are
+   dropped when a header with other content arrives; an identical header keeps them *)
+Lemma c02_stale_gop_dropped :
   let h := [EvInStart; EvPublish (vmsg 23 0 1); EvPublish (vmsg 23 1 2); EvPublish (vmsg 23 0 9);
             EvJoin KFlv 1; EvPublish (vmsg 39 1 3)] in
-  out_of (cfg0 1) h 1 = Some [LT 2; LT 1; LT 3].
-Proof. vm_compute. reflexivity. Qed.
+  out_of (cfg0 1) h 1 = Some [LT 2] /\
+  let h' := [EvInStart; EvPublish (vmsg 23 0 1); EvPublish (vmsg 23 1 2); EvPublish (vmsg 23 0 1);
+             EvJoin KFlv 1; EvPublish (vmsg 39 1 3)] in
+  out_of (cfg0 1) h' 1 = Some [LT 2; LT 1; LT 3].
+Proof. vm_compute. split; reflexivity. Qed.
 
 (* F-08(iii), FIXED (lal c48c20c): a TS consumer that stays attached across a
    re-publish receives the new PAT/PMT before the new input's TS data *)
